@@ -166,7 +166,7 @@ def new_conn_via_server(ctxt):
     t = threading.Thread(target=th.run, daemon=True)
     t.start()
     import time as _t
-    for _ in range(400):
+    for _ in range(4000):      # up to 20 s on a loaded machine; normally the first iteration
         if addr in ctxt.temp_connections or addr in ctxt.connections:
             break
         _t.sleep(0.005)
